@@ -321,6 +321,9 @@ func (env *SpecEnv) pureElem(arr, idx string, t types.Type) Val {
 	case KStruct:
 		return Val{K: KRef, T: sApp("elem", arr, idx), Ty: types.NewPointer(t)}
 	case KInt, KRef:
+		if e.isConstRef(arr) {
+			return Val{K: kindOfType(t), T: sSel(sym("CS!"+arr), idx), Ty: t}
+		}
 		return Val{K: kindOfType(t), T: sSel(sSel(env.st.get("Mem"), arr), idx), Ty: t}
 	}
 	comp := e.elemComp(t)
@@ -618,6 +621,10 @@ func (env *SpecEnv) call(n *ast.CallExpr) Val {
 			return vBool(sEq(a.T, b.T))
 		}
 		return vBool(sEq(a.T, b.T))
+	case "wire":
+		// wire(r, k): k-th byte of the (immutable, infinite) byte stream behind reader r
+		need(2)
+		return vInt(sApp("wire", arg(0).T, arg(1).T))
 	case "isConcat":
 		// isConcat(r, a, b): r == a ++ b element-wise (scalar or reference elements)
 		need(3)
@@ -843,8 +850,8 @@ func (env *SpecEnv) quant(isForall bool, n *ast.CallExpr) Val {
 	}
 	rng := sAnd(sApp("<=", lo.T, kTerm), sApp("<", kTerm, hi.T))
 	pat := ""
-	if tr := findTrigger(body.T, j); tr != "" {
-		pat = " :pattern (" + tr + ")"
+	for _, tr := range findTriggers(body.T, j) {
+		pat += " :pattern (" + tr + ")"
 	}
 	if isForall {
 		if pat != "" {
@@ -855,14 +862,23 @@ func (env *SpecEnv) quant(isForall bool, n *ast.CallExpr) Val {
 	return vBool(fmt.Sprintf("(exists ((%s Int)) (and %s %s))", j, rng, body.T))
 }
 
-// findTrigger: first application of select or of a spec function that has the bound
-// variable as a direct argument.
+// findTrigger: applications of select or of spec functions that have the bound variable as a
+// direct argument; all distinct ones are offered as alternative patterns.
 func findTrigger(body, j string) string {
-	x, err := parseSx(body)
-	if err != nil {
+	ts := findTriggers(body, j)
+	if len(ts) == 0 {
 		return ""
 	}
-	var selectT, sfT string
+	return ts[0]
+}
+
+func findTriggers(body, j string) []string {
+	x, err := parseSx(body)
+	if err != nil {
+		return nil
+	}
+	var sels, sfs []string
+	seen := map[string]bool{}
 	var walk func(x *sx)
 	walk = func(x *sx) {
 		if x.list == nil {
@@ -879,10 +895,15 @@ func findTrigger(body, j string) string {
 			}
 		}
 		if direct {
-			if h == "select" && selectT == "" {
-				selectT = x.String()
-			} else if strings.HasPrefix(h, "|sf:") && sfT == "" {
-				sfT = x.String()
+			t := x.String()
+			if !seen[t] {
+				if h == "select" {
+					seen[t] = true
+					sels = append(sels, t)
+				} else if strings.HasPrefix(h, "|sf:") || h == "wire" {
+					seen[t] = true
+					sfs = append(sfs, t)
+				}
 			}
 		}
 		for _, c := range x.list {
@@ -890,10 +911,11 @@ func findTrigger(body, j string) string {
 		}
 	}
 	walk(x)
-	if selectT != "" {
-		return selectT
+	out := append(sels, sfs...)
+	if len(out) > 4 {
+		out = out[:4]
 	}
-	return sfT
+	return out
 }
 
 func mentions(x ast.Expr, name string) bool {
@@ -1086,6 +1108,12 @@ func (w *World) compileSpecFuncs() error {
 				names = append(names, q)
 			}
 			body := env.evalSpecBody(sf.Body, sf)
+			for _, c := range enc.strList {
+				if _, ok := w.specConsts[c]; !ok {
+					w.specConsts[c] = enc.strConst[c]
+					w.specConstList = append(w.specConstList, c)
+				}
+			}
 			res := "Int"
 			if sf.Result == "bool" {
 				res = "Bool"
